@@ -211,6 +211,13 @@ def lagrange_kernel(ctx):
     ctx.ok("AGREE", f.key, "result==num*invert(den)")
 
 
+def strip_views(t):
+    """peel value-preserving views (as_slice / as_ref / deref / borrow)"""
+    while is_call(t) and t[1].rsplit("::", 1)[-1] in ("as_slice", "as_ref", "deref", "borrow", "as_bytes") and len(t[2]) == 1:
+        t = t[2][0]
+    return t
+
+
 def total_of(P, f, v, t):
     """t = (reduction) + extra, written `acc = acc + extra` after the loop or `acc + extra` in the result: (reduction, extra)"""
     if t[0] == "phi":
@@ -357,15 +364,14 @@ def run(ctx):
     if f:
         v = FnView.get(P, f)
         oks = ok_values(f, v)
-        ok = len(oks) == 1 and mentions(oks[0], lambda s: is_call(s, name="map") and mentions(s[2][0], lambda u: u[0] == "ok" and is_call(u[1], name="binding_factor_preimages")
-                                                                                             and u[1][2][0] == ("arg", 1) and u[1][2][1] == ("arg", 2) and u[1][2][2] == ("arg", 3)))
-        clo = [s for s in subterms(oks[0]) if s[0] == "closure"] if oks else []
-        for c in clo:
-            cf = P.fns.get(c[1])
-            ct = TermCx(P, cf).local(0) if cf else None
-            ok = ok and ct is not None and ct[0] == "agg" and ct[1] == "tuple" and \
-                unwrap_newtypes(ct[4][1][1]) == ("call", unwrap_newtypes(ct[4][1][1])[1], (("field", ("arg", 2), None, "1"),), unwrap_newtypes(ct[4][1][1])[3], unwrap_newtypes(ct[4][1][1])[4]) and \
-                is_call(unwrap_newtypes(ct[4][1][1]), name="H1") and ct[4][0][1] == ("field", ("arg", 2), None, "0")
+        comps = map_components(P, f, v, unwrap_newtypes(oks[0])) if len(oks) == 1 else []
+        pre = lambda u: u[0] == "ok" and is_call(u[1], name="binding_factor_preimages") and u[1][2][0] == ("arg", 1) and \
+            u[1][2][1] == ("arg", 2) and u[1][2][2] == ("arg", 3)
+        ok = len(comps) == 1 and comps[0][0] == "each" and pre(comps[0][1]) and comps[0][2] == ("field", ITEM, None, "0")
+        if ok:
+            val = unwrap_newtypes(comps[0][3])
+            ok = is_call(val, name="H1") and len(val[2]) == 1 and strip_views(val[2][0]) == ("field", ITEM, None, "1")
+        clo = [1]
         ctx.check(ok and len(clo) == 1, "PROV", f.key, "rho_i==H1(preimage_i)-for-every-signer",
                   "each signer's binding factor must be H1 of that signer's preimage, keyed by that signer", f.loc)
     f = ctx.anchor(CORE + "round1::encode_group_commitments")
